@@ -23,6 +23,9 @@ func (vc *VC) newFrame(fn *ssa.Function, spec *FuncSpec, parent *Frame) *Frame {
 	fr.analyzeEscapes()
 	fr.findLoops()
 	fr.computeOrdinals()
+	if spec != nil && vc.P.oldNames != nil {
+		fr.renamed = vc.P.renameMap(fn)
+	}
 	return fr
 }
 
